@@ -969,6 +969,259 @@ def body_extreme(c):
     return res
 
 
+# --------------------------------------------------------------------------- large instances (size grows with the tree)
+LARGE_KINDS = ["logdiff", "logdiff", "logdiff", "general", "general", "difference", "cumsum", "cumsumexp",
+               "cumsumsoftplus", "stick"]
+LARGE_TREE = {"logdiff": "LogDifferenceRateTransform", "general": "GeneralNodeHeightTransform",
+              "difference": "DifferenceNodeHeightTransform"}
+LARGE_VEC = {"cumsum": "CumSumTransform", "cumsumexp": "CumSumExpTransform",
+             "cumsumsoftplus": "CumSumSoftPlusTransform", "stick": "StickBreakingTransform"}
+JAC_MAX = 320  # largest dimension for which the autograd Jacobian + slogdet is also taken
+
+
+@st.composite
+def large_cases(draw, max_n=200, max_d=400):
+    kind = draw(st.sampled_from(LARGE_KINDS))
+    c = {"kind": kind, "dtype": draw(st.sampled_from(["float64", "float64", "float32"])),
+         "seed": draw(st.integers(0, 2 ** 31 - 1))}
+    if kind in LARGE_TREE:
+        c["n"] = draw(st.one_of(st.integers(9, 40), st.integers(40, max_n)))
+        c["dates"] = draw(st.sampled_from(["iso", "ages", "calendar"]))
+        c["shape"] = draw(st.sampled_from(["random", "random", "caterpillar", "balanced"]))
+    else:
+        c["d"] = draw(st.one_of(st.integers(30, 100), st.integers(100, max_d)))
+    if kind in ("logdiff", "difference"):
+        lo = draw(st.integers(-6, 2))
+        c["decades"] = [lo, draw(st.integers(lo + 1, 3))]
+    elif kind == "general":
+        c["decades"] = [draw(st.sampled_from([-3.0, -2.0, -1.0, -0.3])), 0.0]
+    else:
+        c["scale"] = draw(st.sampled_from([0.1, 0.5, 1.0, 3.0]))
+    if kind == "difference":
+        c["k"] = draw(st.sampled_from([0.0, 0.0, 1.0, 20.0]))
+    return c
+
+
+def large_materialize(c):
+    """the instance a compact case stands for: all values are a deterministic function of the drawn seed
+    (numpy RandomState), so the case replays exactly; values are rounded to the case's dtype"""
+    rng = np.random.RandomState(c["seed"])
+    rnd = (lambda v: float(np.float32(v))) if c["dtype"] == "float32" else float
+    out = {}
+    if c["kind"] in LARGE_TREE:
+        n = c["n"]
+        if c["shape"] == "caterpillar":
+            joins = [[m - 1, 0] for m in range(n, 1, -1)]
+        elif c["shape"] == "balanced":
+            joins = [[0, 0] for m in range(n, 1, -1)]
+        else:
+            joins = [[int(rng.randint(0, m)), int(rng.randint(0, m - 1))] for m in range(n, 1, -1)]
+        names = ["t%d" % i for i in range(n)]
+        if c["dates"] == "iso":
+            dates = [0.0] * n
+        else:
+            g = rng.randint(0, 25, size=n)
+            g[int(rng.randint(0, n))] = 0
+            dates = [(0.0 if c["dates"] == "ages" else 1990.0) + 0.5 * float(v) for v in g]
+        order = [int(i) for i in rng.permutation(n)]
+        out["tree"] = {"n": n, "newick": newick_from(names, joins), "taxa": [names[k] for k in order],
+                       "dates": [dates[k] for k in order], "mode": c["dates"]}
+        lo, hi = c["decades"]
+        span = max(dates) - min(dates)
+        if c["kind"] == "logdiff":
+            out["x"] = [rnd(10.0 ** v) for v in rng.uniform(lo, hi, size=2 * n - 2)]
+            out["heights"] = [float(v) for v in rng.uniform(0.1, 0.9, size=n - 2)] + [span + 1.0]
+        elif c["kind"] == "general":
+            out["x"] = [rnd(min(0.999, 10.0 ** v)) for v in rng.uniform(lo, hi, size=n - 2)] + \
+                       [rnd(span + 10.0 ** rng.uniform(-1, 2))]
+        else:
+            out["x"] = [rnd(10.0 ** v) for v in rng.uniform(lo, hi, size=n - 1)]
+    else:
+        out["x"] = [rnd(v) for v in rng.uniform(-c["scale"], c["scale"], size=c["d"])]
+    return out
+
+
+def _tree_arrays(tree):
+    """parent index, bound (oldest tip below) and depth of every node under the documented numbering"""
+    n = tree["n"]
+    parent, root = parent_map(tree)
+    d = tree["dates"]
+    tip = d if min(d) == 0.0 else [max(d) - v for v in d]
+    bound = np.zeros(2 * n - 1)
+    bound[:n] = tip
+    for i in range(2 * n - 2):  # children have smaller indices than their parents (post-order numbering)
+        bound[parent[i]] = max(bound[parent[i]], bound[i])
+    depth = np.zeros(2 * n - 1)
+    for i in range(2 * n - 3, -1, -1):
+        depth[i] = depth[parent[i]] + 1
+    return parent, root, bound, depth
+
+
+def large_reference(c, inst):
+    """(G, S, ok): product-free float64 value of the documented log-Jacobian (sums of logs only) and the
+    sensitivity sum S of that formula: a backward-stable evaluation in a dtype errs by about eps * S"""
+    x = np.asarray(inst["x"], dtype=float)
+    kind = c["kind"]
+    with np.errstate(all="ignore"):
+        if kind == "logdiff":
+            lg = np.log(x)
+            return -math.fsum(lg), float(np.abs(lg).sum() + x.size), True
+        if kind in ("difference", "cumsum"):
+            return 0.0, 0.0, True
+        if kind == "general":
+            tree = inst["tree"]
+            n = tree["n"]
+            parent, root, bound, depth = _tree_arrays(tree)
+            h = np.zeros(2 * n - 1)
+            h[root] = x[-1]
+            terms, S = [], float(n)
+            for i in range(2 * n - 3, n - 1, -1):
+                gap = h[parent[i]] - bound[i]
+                h[i] = bound[i] + x[i - n] * gap
+                if not gap > 0:
+                    return 0.0, 0.0, False
+                terms.append(math.log(gap))
+                S += (abs(h[parent[i]]) + abs(bound[i])) / gap * (1.0 + depth[i]) + abs(terms[-1])
+            tiny = float(torch.finfo(DTYPES[c["dtype"]][0]).tiny)
+            ok = bool(np.all(h[n:] - bound[n:] > tiny * 1e3))
+            return math.fsum(terms), S, ok
+        cs = np.cumsum(x)
+        P = np.cumsum(np.abs(x))
+        lim = math.log(float(torch.finfo(DTYPES[c["dtype"]][0]).max)) - 1.0
+        if kind == "cumsumexp":
+            return math.fsum(cs), float((np.abs(cs) + P).sum() + x.size), bool(np.max(np.abs(cs)) < lim)
+        if kind == "cumsumsoftplus":
+            t = -np.logaddexp(0.0, -cs)
+            w = np.exp(-np.logaddexp(0.0, cs))  # sigmoid(-c) = d log sigmoid(c) / dc
+            return math.fsum(t), float((np.abs(t) + w * P).sum() + x.size), bool(np.max(np.abs(cs)) < lim)
+        if kind == "stick":
+            K1 = x.size
+            off = x - np.log(np.arange(K1, 0, -1.0))
+            lz = -np.logaddexp(0.0, -off)       # log z_i
+            l1z = -np.logaddexp(0.0, off)       # log (1 - z_i)
+            ly = lz + np.concatenate(([0.0], np.cumsum(l1z)[:-1]))
+            tiny = math.log(float(torch.finfo(DTYPES[c["dtype"]][0]).tiny))
+            ok = bool(ly.min() > tiny + 5 and np.cumsum(l1z)[-1] > tiny + 5)
+            S = float((np.abs(ly) + np.abs(l1z) + np.abs(lz) + np.abs(off) + np.arange(1, K1 + 1)).sum())
+            return math.fsum(ly + l1z), S, ok
+    raise KeyError(kind)
+
+
+def _large_build(c, inst, dname):
+    """transform + TransformedParameter through the JSON route with `dname` as the default dtype"""
+    old = torch.get_default_dtype()
+    torch.set_default_dtype(DTYPES[dname][0])
+    try:
+        kind = c["kind"]
+        px = tt.P("x", inst["x"], dtype="torch." + dname)
+        if kind in LARGE_TREE:
+            tree = inst["tree"]
+            cls = LARGE_TREE[kind]
+            dic = {}
+            if kind == "general":
+                tsp = tree_spec(tree, "ratio", [inst["x"]], [])
+                tsp["ratios"]["dtype"] = tsp["root_height"]["dtype"] = "torch." + dname
+                model, dic = tt.build(tsp)
+                spec = {"id": "tp", "type": "TransformedParameter", "transform": FULL[cls],
+                        "x": ["ratios", "root_height"], "parameters": {"tree": "tree"}}
+            elif kind == "difference":
+                tsp = tree_spec(tree, "shift", [inst["x"]], [])
+                tsp["shifts"]["dtype"] = "torch." + dname
+                model, dic = tt.build(tsp)
+                spec = {"id": "tp", "type": "TransformedParameter", "transform": FULL[cls], "x": "shifts",
+                        "parameters": {"tree_model": "tree"}}
+                if c["k"] > 0:
+                    spec["parameters"]["k"] = c["k"]
+            else:
+                tsp = tree_spec(tree, "ratio", [inst["heights"]], [])
+                model, dic = tt.build(tsp)
+                spec = {"id": "tp", "type": "TransformedParameter", "transform": cls, "x": px,
+                        "parameters": {"tree_model": "tree"}}
+            tp, _ = tt.build(spec, dic)
+        else:
+            tp, dic = tt.build({"id": "tp", "type": "TransformedParameter", "transform": FULL[LARGE_VEC[kind]], "x": px})
+        return tp
+    finally:
+        torch.set_default_dtype(old)
+
+
+def body_large(c):
+    kind, dname = c["kind"], c["dtype"]
+    dtype, eps, floor = DTYPES[dname]
+    cls = LARGE_TREE.get(kind) or LARGE_VEC[kind]
+    inst = large_materialize(c)
+    size = len(inst["x"])
+    band = "size<60" if size < 60 else "size60-199" if size < 200 else "size200+"
+    labels = {cls, dname, band}
+    res = Res(nontrivial=False, key=c, tags={"cls": cls, "dtype": dname, "size": band})
+    G, S, ok = large_reference(c, inst)
+    if not ok:
+        res.labels = tuple(sorted(labels | {"skipped:documented_value_out_of_range"}))
+        return res
+    old = torch.get_default_dtype()
+    torch.set_default_dtype(dtype)
+    try:
+        tp = _large_build(c, inst, dname)
+        T = tp.transform
+        X = tp.x.tensor
+        if type(T).__name__ != cls or X.dtype != dtype:
+            _fail(res, "build", "class", {"built": type(T).__name__, "dtype": str(X.dtype)})
+            return res
+        Y, e = _try(lambda: T(X))
+        if e is not None or _notprov(Y):
+            _fail(res, "large_forward", "not_provided", {"case": c}, e)
+            return res
+        L, e = _try(lambda: T.log_abs_det_jacobian(X, Y))
+        called, e2 = _try(lambda: tp())
+    finally:
+        torch.set_default_dtype(old)
+    d = {"case": c, "size": size}
+    if e is not None:
+        _fail(res, "large_ladj", "", d, e)
+        return res
+    if _notprov(L):
+        labels.add("ladj:not_provided")
+        res.labels = tuple(sorted(labels))
+        return res
+    Lr = _reduce(L, X.shape)
+    if Lr is None:
+        _fail(res, "ladj_shape", "shape", dict(d, reported_shape=list(L.shape)))
+        return res
+    reported = float(Lr)
+    # oracle of record: slogdet of the autograd Jacobian of the same specification built in float64 (no product is
+    # formed: LU pivots enter through their logarithms); beyond JAC_MAX entries the product-free documented formula
+    oracle, which = G, "formula"
+    if size <= JAC_MAX:
+        tw = _large_build(c, inst, "float64")
+        x64 = tw.x.tensor.detach().clone()
+        om = _outmap(cls)
+        J = arr(torch.autograd.functional.jacobian(lambda z: om(tw.transform(z)).reshape(-1), x64)).reshape(-1, size)
+        o = oracle_logdet(J)
+        if o is not None:
+            labels.add("oracle:autodiff+formula")
+            if abs(o[0] - G) > 1e-7 * max(1.0, abs(G)) + 64 * EPS * (S + o[1]):
+                # the two oracles disagree: the forward map is not the documented one, or the instance is too
+                # ill-conditioned for the LU; the autodiff value is the property's definition
+                labels.add("oracle:formula_differs")
+                _fail(res, "large_oracles", "disagree", dict(d, autodiff=o[0], formula=G, cond=o[1]))
+            oracle, which = o[0], "autodiff"
+    tol = (floor * max(1.0, abs(oracle)) if dname == "float64" else 0.0) + K_ULP * eps * S
+    if kind in ("difference", "cumsum"):
+        tol = 1e-8 if which == "autodiff" else 0.0
+    if not abs(reported - oracle) <= tol:
+        _fail(res, "large_ladj", "mismatch", dict(d, reported=reported, oracle=oracle, oracle_kind=which, tol=tol,
+                                                 eps_units=(abs(reported - oracle) / eps if math.isfinite(reported) else None)))
+    labels.add("large_ladj:checked")
+    if e2 is None and not _notprov(called):
+        if not _close(called, L, 0.0):
+            _fail(res, "tp_call", "mismatch:large", dict(d, called=float(_reduce(called, X.shape)), reported=reported))
+    else:
+        _fail(res, "tp_call", "not_provided", d, e2)
+    res.nontrivial = size >= 60
+    res.labels = tuple(sorted(labels))
+    return res
+
+
 # --------------------------------------------------------------------------- calibration of the oracle
 def selftest():
     from torch.distributions import ExpTransform
@@ -1018,6 +1271,8 @@ def subchecks(tier):
             pretags=_h_pretags),
         Sub("extreme", body_extreme, strategy=extreme_cases, quick=3000, thorough=30000,
             pretags=lambda c: {"cls": c["cls"], "dtype": c["dtype"]}),
+        Sub("large", body_large, strategy=lambda: large_cases(200 if tier == "quick" else 300, 400), quick=240,
+            thorough=4000, pretags=lambda c: {"cls": LARGE_TREE.get(c["kind"]) or LARGE_VEC[c["kind"]], "dtype": c["dtype"]}),
         Sub("rates", body_rates, strategy=lambda: rate_cases(min(max_n, 12)), quick=500, thorough=8000,
             pretags=_vec_pretags),
     ]
